@@ -246,6 +246,22 @@ func (w *World) honestQC(b *hotstuff.Block, k int) hotstuff.QuorumCert {
 	return hotstuff.NewQuorumCert(sig, b.View(), b.Hash())
 }
 
+// sameAs maps a pool index to the lowest index that holds the very same certificate object (some entries fall back to
+// another one where the intended difference cannot be made: b3-other-quorum when n = q and the scheme has no signer order,
+// b3-retyped under BLS).
+func (w *World) sameAs(p int) int {
+	for q := 0; q < p; q++ {
+		a, b := w.Pool[q], w.Pool[p]
+		if a.View() != b.View() || a.BlockHash() != b.BlockHash() || (a.Signature() == nil) != (b.Signature() == nil) {
+			continue
+		}
+		if a.Signature() == nil || (fmt.Sprintf("%T", a.Signature()) == fmt.Sprintf("%T", b.Signature()) && string(a.ToBytes()) == string(b.ToBytes())) {
+			return q
+		}
+	}
+	return p
+}
+
 // Auth returns a *fresh* certificate authority for member id (1-based) with the given cache capacity, reusing the
 // member's keys, membership and block store.
 func (w *World) Auth(id, cacheSize int, aggQC bool) *cert.Authority {
@@ -412,6 +428,7 @@ func (w *World) Build(s Spec) (b Built, err error) {
 			if p == PoolRepeated && w.Q == 1 {
 				p = PoolB3 // with a quorum of one, "the signer repeated q times" IS the honest certificate (same block, view, signer)
 			}
+			p = w.sameAs(p) // pool entries that could not be made different for this n / scheme ARE the entry they fall back to
 			return []byte(fmt.Sprintf("timeout|%d|%d|%d", id, view, p))
 		}
 		msgOf = func(e Entry) []byte { return w.timeoutBytes(e.SID, e.View, e.SQC) }
